@@ -37,22 +37,22 @@ def main(args=None) -> int:
             return 0
         case "set":
             source = parse(args.file.read())
-            print(
-                set_value(
-                    source=source,
-                    npath=args.npath,
-                    value=args.value,
-                )
+            text = set_value(
+                source=source,
+                npath=args.npath,
+                value=args.value,
             )
+            # Terminate the output with a newline only when the edit text lacks one, so a
+            # file that ended in exactly one newline still does after `nima set … > file`.
+            sys.stdout.write(text if text.endswith("\n") else text + "\n")
             return 0
         case "rm":
             source = parse(args.file.read())
-            print(
-                remove_value(
-                    source=source,
-                    npath=args.npath,
-                )
+            text = remove_value(
+                source=source,
+                npath=args.npath,
             )
+            sys.stdout.write(text if text.endswith("\n") else text + "\n")
             return 0
         case "test":
             original = args.file.read()
